@@ -167,6 +167,24 @@ def ob_skeleton(k):
     return h
 
 
+def ob_two_strings():
+    """TWO string literals of any kind in one file, each with a possibly RAW newline in its body (lexer state carried from one literal to the next), followed by
+    calls and an array: every later token's position and every extent must still add up"""
+    def h():
+        lits = []
+        for t in ('1', '2'):
+            body = sym_str(choose(3, 'bl' + t), 'b' + t, alphabet='a\n ')
+            kind = choose(4, 'q' + t)
+            lits.append(["'''" + body + "'''", "f'''" + body + "'''", "'" + body + "'", "f'" + body + "'"][kind])
+        sep = ['\n', ', ', '\n\n'][choose(3, 'between')]
+        if sep == ', ':
+            text = 'x = f(' + lits[0] + ', ' + lits[1] + ', [1, 2])\nz = h(3)\n'
+        else:
+            text = 'x = f(' + lits[0] + ')' + sep + 'y = g(' + lits[1] + ', [1, 2])\nz = h(3)\n'
+        check_text(text, 'accept')
+    return h
+
+
 def obligations(tier):
     q = tier == 'quick'
     out = []
@@ -179,4 +197,5 @@ def obligations(tier):
             out.append(Obligation('window[%s,%d]' % (ctx[0], w), ob_window(ctx, w), dict(context=ctx[1] + '<W>' + ctx[2], window=w, alphabet=TOK), labels=('accept', 'parse-reject'), max_paths=30000000, classify=classify))
     for k in range(4):
         out.append(Obligation('skeleton[%d]' % k, ob_skeleton(k), dict(template=k, string_body='<=2 over {a,newline,quote,space,backslash}', trivia='4 kinds'), labels=('accept', 'extent'), max_paths=8000000))
+    out.append(Obligation('two-strings', ob_two_strings(), dict(literals=2, kinds="''' f''' ' f'", body='<=2 over {a, newline, space}', between='newline | comma | blank line'), labels=('accept', 'extent'), max_paths=8000000))
     return out
